@@ -304,12 +304,12 @@ theorem energy_of_alpha (p : SedovShock.P) (k : ℕ) (A : Admissible p k) (f g h
   obtain ⟨j, hj⟩ : ∃ j, k = j + 1 := by
     rcases A.hk with h | h | h <;> exact ⟨k - 1, by omega⟩
   have hrho2 : SedovShock.rho2 p t = (p.gamma + 1) / (p.gamma - 1) * (p.rho0 * SedovShock.r2 p t ^ (-p.omega)) := by
-    simp only [epv_tree, epv_cond, not_le.mpr ht, if_false, epv_leaf]
+    epv_semi_tree
   have hu2 : SedovShock.u2 p t = 2 * (2 / (p.geometry + 2 - p.omega) * SedovShock.r2 p t / t) / (p.gamma + 1) := by
-    simp only [epv_tree, epv_cond, not_le.mpr ht, if_false, epv_leaf]
+    epv_semi_tree
   have hp2 : SedovShock.p2 p t = 2 * (p.rho0 * SedovShock.r2 p t ^ (-p.omega))
       * (2 / (p.geometry + 2 - p.omega) * SedovShock.r2 p t / t) ^ 2 / (p.gamma + 1) := by
-    simp only [epv_tree, epv_cond, not_le.mpr ht, if_false, epv_leaf]
+    epv_semi_tree
   unfold EnergyConserved energyBehind density velocity pressure
   rw [hrho2, hu2, hp2]
   have hpc := pow_combine (SedovShock.r2 p t) p.omega k hRpos
